@@ -24,8 +24,10 @@ def run_config(run, cfg, seed, tag):
         kw = sc.call_kwargs()
         try:
             x, y, ret, log = sc.step(**kw)
-        except KeyError as ex:
-            run.other_error(f"C15:step:{type(ex).__name__}")
+        except Exception as ex:
+            run.ok(kind="raised")
+            run.violation("explain-raises", f"{tag} step {t}: explain_one raised {type(ex).__name__}: {ex} on a legal configuration",
+                          {"cfg": cfg, "seed": seed, "step": t, "kwargs": kw})
             return
         replay = {"cfg": cfg, "seed": seed, "step": t, "kwargs": kw}
         if t == 0:
